@@ -603,6 +603,16 @@ func runR87(c *Ctx) {
 								carries = true
 							}
 						}
+						// append(old, ...): the old element itself, grown - its content is the prefix of the result
+						if ld, ok := t.Call.Args[0].(*ssa.UnOp); ok && ld.Op == token.MUL {
+							if ia2, ok := ld.X.(*ssa.IndexAddr); ok && rootValue(ia2.X) == rootValue(ia.X) {
+								if mk, isMk := t.Call.Args[1].(*ssa.MakeSlice); isMk {
+									if k, isK := constInt(mk.Len); isK && k == 0 {
+										carries, rooted = true, true // nothing is added behind the old content either
+									}
+								}
+							}
+						}
 						walk(t.Call.Args[0])
 					}
 				}
